@@ -177,7 +177,7 @@ def run_pipeline(tables, cfg, workdir, name, fmt="pin", row_group=None, sched_de
     for i, t in enumerate(tables):
         p = root / f"file{i}{ext}"
         world.materialise(t, p, fmt, row_group, dict_strings=dict_strings, index_start=index_start,
-                          g_format=bool(cfg.get("g_format")))
+                          g_format=bool(cfg.get("g_format")), nan_values=bool(cfg.get("parquet_nan_values")))
         paths.append(p)
     res.paths = paths
     ti = tag_index(tables[0])
